@@ -303,18 +303,42 @@ def rel_C13(suite):
 
 
 # ------------------------------------------------------------------ C06
+def memoized_rules(text):
+    out = set()
+    for block in text.split('\n\n'):
+        ls = [l for l in block.strip().split('\n') if l]
+        dirs = [l for l in ls if l.startswith('@')]
+        body = [l for l in ls if not l.startswith('@')]
+        if body and '@memoize' in dirs and '@leftrec' not in dirs:
+            m = re.match(r'(\w+) =', body[0])
+            if m:
+                out.add(m.group(1))
+    return out
+
+
 def rel_C06(suite):
     res = dict(evaluations=0, nontrivial=set(), samples=[], strict=[], prop=[], distribution=collections.Counter())
-    for c, i, rule, text, m, im, flags in iter_lines(suite, ['probe', 'memo', 'hooks']):
-        ev_i = log_events(im[3], 'X')
-        ev_m = log_events(m[3], 'X')
-        if 'probe' not in c['tags'] and not ev_i:
+    for c, i, rule, text, m, im, flags in iter_lines(suite, ALL):
+        if '@memoize' not in c['text']:
             continue
+        # user-visible calls: extern rules (X), @check functions (K), char-rule checks (C)
+        ev_i = log_events(im[3], ('X', 'K', 'C'))
+        ev_m = log_events(m[3], ('X', 'K', 'C'))
         res['evaluations'] += 1
         res['distribution']['impl:' + im[0]] += 1
         if ev_i != ev_m:
-            res['strict'].append(mk_replay(c, i, rule, text, m, im, 'extern call sequence'))
-        if 'probe' in c['tags']:
+            res['strict'].append(mk_replay(c, i, rule, text, m, im, 'sequence of user-function calls (extern, @check)'))
+        # a cache hit answers the call: the next tracer event after `S:R@p;I:Cache hit` must be R's result (O:/E:);
+        # a user-function call or a sub-rule entry there is (part of) R evaluated again at p
+        evs_all = im[3].split(';')
+        for k in range(len(evs_all) - 2):
+            if evs_all[k].startswith('S:') and evs_all[k + 1].startswith('I:Cache hit') and not evs_all[k + 2].startswith(('O:', 'E:')):
+                res['prop'].append(mk_replay(c, i, rule, text, m, im,
+                                             'memoized rule %s: work after a cache hit (%s) – evaluated more than once at one position' % (evs_all[k][2:], evs_all[k + 2][:60])))
+                break
+        if 'Cache hit' in im[3] and 'probe' not in c['tags']:
+            res['nontrivial'].add((c['id'], im[0], 'hit+hooks'))
+        if True:
             # body evaluations of memoized rules, read off the tracer: an entry `S:R@p` that is not immediately
             # answered by `I:Cache hit` is a body evaluation of R at p; the probes (extern calls that consume
             # nothing) make the same count visible to user code and are compared in the strict relation above
@@ -325,10 +349,11 @@ def rel_C06(suite):
                     nxt = evs[k + 1] if k + 1 < len(evs) else ''
                     if not nxt.startswith('I:Cache hit'):
                         seen[e[2:]] += 1
-            memo_rules = set(re.findall(r'@memoize\n(?:@\w+\n)*(\w+) =', c['text']))
+            memo_rules = memoized_rules(c['text'])
             over = [(k, v) for k, v in seen.items() if v > 1 and k.split('@')[0] in memo_rules]
             n_fail = im[3].count('E:')
-            res['nontrivial'].add((c['id'], im[0], len(seen), 'Cache hit' in im[3]))
+            if 'probe' in c['tags']:
+                res['nontrivial'].add((c['id'], im[0], len(seen), 'Cache hit' in im[3]))
             if 'Cache hit' in im[3]:
                 res['distribution']['inputs with cache hits'] += 1
             if over:
